@@ -60,9 +60,9 @@ func (m *URNsModifier) Apply(eng flows.Engine, env envs.Environment, sa flows.Se
 			log(events.NewErrorf("'%s' is not valid URN", urn))
 		} else {
 			if m.Modification == URNsAppend || m.Modification == URNsSet {
-				modified = contact.AddURN(urn, nil)
+				modified = contact.AddURN(urn, nil) || modified
 			} else {
-				modified = contact.RemoveURN(urn)
+				modified = contact.RemoveURN(urn) || modified
 			}
 		}
 	}
